@@ -459,6 +459,19 @@ func c10Run(c *Ctx) {
 			c10Judge(c, &Case{Gen: "repl-literals", Src: strings.Join(lines, "\n"), X: map[string]string{"final_newline": "1", "all_self": "1"}})
 		}
 	}
+	// interactive mode: a literal is echoed after whatever the line did before it (calls that return, loops, blocks)
+	{
+		lines := []string{Fun("sq", "k", " "+Ret("k * k")+" ") + " sq(1.5); 12.5;", Fun("nop", "", " "+Ret("")+" ") + " nop(); \u09e7\u09e8.\u09eb; 0.5;", For(Var("i", "0"), "i < 1", "i = i + 1", "{ }") + " 2.25;", Fun("e", "", " 7; ") + " e(); 8;", "{ 1; } 2;", If(True(), "{ "+Fun("q", "", " "+Ret("1")+" ")+" q(); }") + " 3.5;"}
+		if c.Mine() {
+			c10Judge(c, &Case{Gen: "repl-literals", Src: strings.Join(lines, "\n"), X: map[string]string{"final_newline": "1", "all_self": "1"}})
+		}
+	}
+	for _, pr := range [][2]string{{"10 ** 20", "100000000000000000000"}, {"2 ** 64", "18446744073709551616"}, {"2 ** 63", "9223372036854775808"}, {BI("pow", "10", "19"), "10000000000000000000"}, {"3 ** 40", "12157665459056928801"}, {"10 ** 22", "10000000000000000000000"}, {"(0 - 2) ** 63", "(0 - 9223372036854775808)"}, {"7 ** 23", "27368747340080916343"}} {
+		src := Lines(Print(pr[0]+" == "+pr[1]), Print(pr[0]), Print(pr[1]), Print(BanglaDigits(pr[1], nil)+" == "+pr[0]))
+		if c.Mine() {
+			c10Judge(c, &Case{Gen: "end-to-end", Src: src})
+		}
+	}
 	// interactive mode: a literal means the same on every line, whatever earlier lines did
 	for _, bad := range []string{Print("nope"), "[1][5];", Print("1 / 0"), Print("1" + strings.Repeat("0", 309))} {
 		lines := []string{Print("\u09ea\u09e8"), bad, Print("\u09ea\u09e8"), Print("4\u09e8.\u09eb"), Print("12 == \u09e7\u09e8"), bad, "0.1 + 0.2;", "1000000;"}
